@@ -278,7 +278,7 @@ func c23Run(r *simkit.Run) {
 
 	r.Sched(simkit.SchedOpts{MaxSteps: 400000})
 
-	if r.Live() > 0 {
+	if r.Unfinished() {
 		r.Fail("liveness", "pool", "client did not finish")
 	}
 }
